@@ -200,3 +200,10 @@ const fn is_qr_alphanumeric(c: u8) -> bool {
         | b'/'
         | b':')
 }
+
+#[cfg(fast_qr_verif)]
+pub(crate) mod verif {
+    pub fn is_qr_alphanumeric(c: u8) -> bool {
+        super::is_qr_alphanumeric(c)
+    }
+}
